@@ -821,6 +821,7 @@ void check(const Case &c, const vsim::RunResult &)
         if (m.instr == st.instr)
           ms.push_back(&m);
       // per measurement: in how many reports of this (reader, stream) it appeared
+      std::map<int64_t, bool> placed_overflow;  // digit -> first seen in the overflow series?
       std::map<int64_t, int> seen_total;        // digit -> count over all delta reports
       std::set<int64_t> prev_cum;               // digits in the previous cumulative report
       int64_t prev_end = -1;
@@ -947,6 +948,8 @@ void check(const Case &c, const vsim::RunResult &)
                              fmt("reader %d stream %s: measurement #%d counted %d times in one "
                                  "point",
                                  r, st.name.c_str(), d, dg[d]));
+                if (!placed_overflow.count(d))
+                  placed_overflow[d] = p.overflow;
                 if (!in_this.insert(d).second)
                   report_for(c, "C06.duplicate",
                              fmt("reader %d stream %s: measurement #%d is in two series of one "
@@ -1080,6 +1083,35 @@ void check(const Case &c, const vsim::RunResult &)
             prev_cum = in_this;
         }
       }
+      // ---- C08: equal sets land in one series. Within one interval of the storage (no
+      // collection by any reader overlaps the two calls) a set that was admitted to its own
+      // series must keep it: a later measurement with the same filtered set may not be folded
+      // into the overflow series.
+      if (!is_hist(kind))
+        for (auto *m1 : ms)
+          for (auto *m2 : ms)
+          {
+            if (m1->ret >= m2->inv)
+              continue;
+            auto p1 = placed_overflow.find(m1->digit), p2 = placed_overflow.find(m2->digit);
+            if (p1 == placed_overflow.end() || p2 == placed_overflow.end() || p1->second ||
+                !p2->second)
+              continue;
+            if (attrs_of(m1->attr_id, st.mask) != attrs_of(m2->attr_id, st.mask))
+              continue;
+            bool same_interval = true;
+            for (auto &col : w.collections)
+              if (col.ret > m1->inv && col.inv < m2->ret)
+                same_interval = false;
+            if (same_interval)
+              report_for(c, "C08.admitted_set_overflowed",
+                         fmt("reader %d stream %s: measurement #%lld landed in its own series "
+                             "{%s} but the later measurement #%lld with the same attribute set, "
+                             "in the same collection interval, was folded into the overflow series",
+                             r, st.name.c_str(), (long long)m1->digit,
+                             canon_attrs(attrs_of(m1->attr_id, st.mask)).c_str(),
+                             (long long)m2->digit));
+          }
       if (explained_loss && !unexplained_loss)
         report_for(c, "C06.orphaned_storage.duplicate_handle",
                    fmt("reader %d stream %s: measurements made through an earlier handle of "
